@@ -206,7 +206,7 @@ pub fn run_check(ctx: &Ctx) -> i32 {
         // foreign content: mode switches inside svg / math, tags handed from the scanner to the lexer
         let mut fcfgs = prep_menu(&obs, &["el(*)", "endtag(a)", "text(a)", "everything"], &[false], "UTF-8");
         fcfgs.push(Prepared::new(Cfg::with(vec![HSpec::obs(HKind::Element, "svg"), HSpec::obs(HKind::Element, "math"), HSpec::obs_end_tag("svg"), HSpec::obs(HKind::Element, "a")]).strict(false)).unwrap());
-        sweep(ctx, "10 foreign contexts (also preceded by text) x 55 foreign tag fragments<=2 x 5 configs x L1,LB", Space::Foreign { max: 2 }, &fcfgs, l1);
+        sweep(ctx, "10 foreign contexts (also preceded by text) x 58 foreign tag fragments<=2 x 5 configs x L1,LB", Space::Foreign { max: 2 }, &fcfgs, l1);
     } else {
         let l_all = Levels { l1: true, l2_max_len: 48, bytewise: true, empties: true };
         sweep(ctx, "F<=3 x 18 configs x L1,L2,LB,LE,rewrite_str", Space::Frags { k, max: 3 }, &full, l_all);
@@ -217,7 +217,7 @@ pub fn run_check(ctx: &Ctx) -> i32 {
         sweep(ctx, "F<=3 x 3 encodings x 2 configs x L1,L2,LB,LE", Space::Frags { k, max: 3 }, &enc_cfgs, l_all);
         let mut fcfgs = prep_menu(&obs, &["el(*)", "endtag(a)", "text(a)", "everything", "doc-all"], &[true, false], "UTF-8");
         fcfgs.push(Prepared::new(Cfg::with(vec![HSpec::obs(HKind::Element, "svg"), HSpec::obs(HKind::Element, "math"), HSpec::obs_end_tag("svg"), HSpec::obs(HKind::Element, "a")]).strict(false)).unwrap());
-        sweep(ctx, "10 foreign contexts x 55 foreign tag fragments<=2 x 11 configs x L1,L2,LB,LE", Space::Foreign { max: 2 }, &fcfgs, l_all);
+        sweep(ctx, "10 foreign contexts x 58 foreign tag fragments<=2 x 11 configs x L1,L2,LB,LE", Space::Foreign { max: 2 }, &fcfgs, l_all);
     }
     ctx.finish(
         "model_checking",
